@@ -361,6 +361,57 @@ def verify_unit(name, timeout=600, rlimit=None, known=()):
         if name_ is None:
             name_ = '%s.proof-steps' % fname if not (f and f['kind'].startswith('exec')) else '%s.%s' % (fname, kind)
         res.failures.append(Failure(name_, kind, msg, site, d.get('rendered', '')[:4000], fname))
+    # clause isolation: a function that ran out of resources is re-run once per postcondition, with its other
+    # postconditions blanked.  A clause that then fails CLEANLY (postcondition not satisfied, no resource-out in that
+    # function) is a failed obligation; the function stays undecided only if nothing fails cleanly.
+    res_fns = []
+    for d in r['diags']:
+        if d.get('level') == 'error' and classify(d.get('message', '')) == 'resource':
+            for sp in d.get('spans', []):
+                if os.path.basename(sp.get('file_name', '')) == base:
+                    for fn in fns:
+                        if fn['start'] <= sp['line_start'] <= fn['end'] and fn not in res_fns:
+                            res_fns.append(fn)
+    isolated = []
+    for fn in res_fns[:2]:
+        mine = [c for c in clauses if c.kind == 'ensures' and not c.loop and c.start >= fn['start'] and c.end <= fn['end'] and c.name() not in known]
+        if not mine or len(mine) > 12:
+            continue
+        clean_fail = []
+        for c in mine:
+            blank = [(o.start, o.end) for o in mine if o is not c] + clause_ranges(clauses, known)
+            p3, _ = write_unit(unit, name + '_iso.rs', blank=blank)
+            r3 = run_verus(p3, timeout=timeout, rlimit=rlimit)
+            b3 = os.path.basename(p3)
+            fn_res, fn_fail = False, None
+            for d3 in r3['diags']:
+                if d3.get('level') != 'error':
+                    continue
+                sp3 = d3.get('spans', []) + [x for ch in d3.get('children', []) for x in ch.get('spans', [])]
+                inside = [x for x in sp3 if os.path.basename(x.get('file_name', '')) == b3 and fn['start'] <= x['line_start'] <= fn['end']]
+                if not inside:
+                    continue
+                k3 = classify(d3.get('message', ''))
+                if k3 == 'resource':
+                    fn_res = True
+                elif k3 == 'ensures' and any(c.start <= x['line_start'] <= c.end for x in inside):
+                    ex = [x for x in inside if not (c.start <= x['line_start'] <= c.end)]
+                    site3 = norm(unit.lines[ex[0]['line_start'] - 1].text) if ex and unit.origin(ex[0]['line_start'])[0] in ('S', 'S+T') else ''
+                    fn_fail = Failure(c.name(), 'ensures', d3.get('message', '') + ' (clause checked in isolation after the whole function ran out of resources)', site3,
+                                      d3.get('rendered', '')[:4000], c.fn)
+            if fn_fail is not None and not fn_res:
+                clean_fail.append(fn_fail)
+        if clean_fail:
+            isolated.append(fn)
+            res.failures += clean_fail
+    if isolated:
+        # the resource-out entries of the isolated functions are now explained by the cleanly failing clauses
+        keep = []
+        for u in res.undecided:
+            if u['reason'] == 'resource' and len(isolated) >= len(res_fns):
+                continue
+            keep.append(u)
+        res.undecided = keep
     # compile / tool errors without JSON results
     vr = (js or {}).get('verification-results') if js else None
     res.tool_ok = bool(js) and vr is not None and not vr.get('encountered-vir-error')
